@@ -10,6 +10,7 @@ EXTENDS LsmProps
 
 CONSTANTS Keys, Vals,        \* model keys / values (naturals >= 1)
           WeakKeys,          \* keys used under the single-delete discipline (C13)
+          BigVals,           \* values that reach the key-value separation threshold ({} = standard tree)
           MaxSeq,            \* bound on the seqno counter
           MaxSealed, MaxTables, MaxSnaps, MaxHist,
           DestLevels,        \* levels compactions may target
@@ -74,7 +75,7 @@ Flush ==
     /\ "flush" \in Ops /\ st.seq < MaxSeq
     /\ Latest(st).sealed # <<>>
     /\ \E w \in WChoices :
-         /\ st' = OpFlush(st, w)
+         /\ st' = OpFlushSep(st, w, [on |-> BigVals # {}, big |-> BigVals])
          /\ A' = AHazard(AFlush(A), FlushHazard(st, w))
          /\ Log([op |-> "flush", w |-> w])
 
